@@ -95,6 +95,20 @@ Lemma WP_fsyncF : forall q (Q : assertion step fs) s t,
   (forall s', Q s' (t ++ [(FsyncF q, true)])) -> WP (fsyncF q) Q s t.
 Proof. intros q Q s t H. unfold WP, machine_wp, fsyncF, TE, TT. cbn. auto. Qed.
 
+Lemma WP_fsyncD_s : forall q (Q : assertion step fs) s t,
+  Q s (t ++ [(FsyncD q, true)]) -> WP (fsyncD q) Q s t.
+Proof.
+  intros q Q s t H. unfold WP, machine_wp, fsyncD, TE, TT. cbn. repeat split; auto.
+  intros s' Hs'. destruct (is_dir s q); [injection Hs' as <-; exact H | discriminate].
+Qed.
+
+Lemma WP_fsyncF_s : forall q (Q : assertion step fs) s t,
+  Q s (t ++ [(FsyncF q, true)]) -> WP (fsyncF q) Q s t.
+Proof.
+  intros q Q s t H. unfold WP, machine_wp, fsyncF, TE, TT. cbn. repeat split; auto.
+  intros s' Hs'. destruct (is_file s q); [injection Hs' as <-; exact H | discriminate].
+Qed.
+
 (* a handler that only re-raises / converts the exception *)
 Lemma WP_catch_raise : forall (p : P) (h : exn errno -> P) (Q : assertion step fs) s t,
   (forall e, exists e', h e = Raise e') -> WP p Q s t -> WP (Catch p h) Q s t.
